@@ -161,6 +161,36 @@ func relevant(h *Harness, prop string, r *Result) *Violation {
 	return nil
 }
 
+// relevantAll returns every violation of r that counts against prop.
+func relevantAll(h *Harness, prop string, r *Result) []*Violation {
+	var out []*Violation
+	for i := range r.Violations {
+		v := &r.Violations[i]
+		if v.Property == prop {
+			out = append(out, v)
+			continue
+		}
+		if v.Property == "*" {
+			for _, p := range h.PanicProps {
+				if p == prop {
+					out = append(out, v)
+				}
+			}
+		}
+	}
+	return out
+}
+
+// withSignature returns the violation of r against prop that has the given signature.
+func withSignature(h *Harness, prop string, r *Result, sig string) *Violation {
+	for _, v := range relevantAll(h, prop, r) {
+		if v.Signature == sig {
+			return v
+		}
+	}
+	return nil
+}
+
 // WorkerMain is the body of every TestVerif<Harness> function.
 func WorkerMain(t *testing.T, h Harness) {
 	prop := os.Getenv("VERIF_PROP")
@@ -274,12 +304,23 @@ func WorkerMain(t *testing.T, h Harness) {
 			out.DetHashes[strconv.FormatUint(i, 10)] = fullHash(&r)
 			continue
 		}
-		v := relevant(&h, prop, &r)
-		if v == nil {
-			continue
+		// a run may carry several violations (e.g. several race reports): known findings are
+		// counted, the first one that is not a known finding is pursued
+		var v *Violation
+		countedKnown := map[string]bool{}
+		for _, cand := range relevantAll(&h, prop, &r) {
+			if kf := matchKnown(known, prop, cand.Signature); kf != nil {
+				if !countedKnown[kf.Signature] {
+					countedKnown[kf.Signature] = true
+					out.Known[kf.Signature]++
+				}
+				continue
+			}
+			if v == nil {
+				v = cand
+			}
 		}
-		if kf := matchKnown(known, prop, v.Signature); kf != nil {
-			out.Known[kf.Signature]++
+		if v == nil {
 			continue
 		}
 		// a new violation: confirm by replaying the recorded tape
@@ -288,11 +329,11 @@ func WorkerMain(t *testing.T, h Harness) {
 			break
 		}
 		r2 := h.RunOne(t, ReplayTape(r.Tape), prop, tier, false)
-		v2 := relevant(&h, prop, &r2)
-		if v2 == nil || v2.Signature != v.Signature {
+		v2 := withSignature(&h, prop, &r2, v.Signature)
+		if v2 == nil {
 			got := "<none>"
-			if v2 != nil {
-				got = v2.Signature
+			if o := relevant(&h, prop, &r2); o != nil {
+				got = o.Signature
 			}
 			out.Errors = append(out.Errors, fmt.Sprintf("NONDETERMINISM run %d (seed %d): violation %q did not reproduce on replay (got %s): %s", i, runSeed, v.Signature, got, v.Msg))
 			break
@@ -300,13 +341,13 @@ func WorkerMain(t *testing.T, h Harness) {
 		minTape, nruns := minimise(t, &h, prop, tier, r.Tape, v.Signature)
 		rf := ReplayFile{Property: prop, Harness: h.Name, Race: RaceBuild, Tier: tier, Seed: seed, RunSeed: runSeed, RunIndex: i, Tape: minTape, OrigTape: len(r.Tape), MinRuns: nruns}
 		rm := h.RunOne(t, ReplayTape(minTape), prop, tier, true)
-		vm := relevant(&h, prop, &rm)
-		if vm == nil || vm.Signature != v.Signature {
+		vm := withSignature(&h, prop, &rm, v.Signature)
+		if vm == nil {
 			// minimised tape is flaky: fall back to the original
 			rf.Tape = r.Tape
 			rm = h.RunOne(t, ReplayTape(r.Tape), prop, tier, true)
-			vm = relevant(&h, prop, &rm)
-			if vm == nil || vm.Signature != v.Signature {
+			vm = withSignature(&h, prop, &rm, v.Signature)
+			if vm == nil {
 				// report the violation that was found and confirmed, never a different one
 				// that the last execution happens to show first
 				vm = v
@@ -377,9 +418,10 @@ func replayOne(t *testing.T, h *Harness, path string, out *WorkerOut) {
 	}
 	out.Runs = 1
 	ro := &ReplayOutcome{Want: rf.Expect.Signature}
-	if v := relevant(h, rf.Property, &r); v != nil {
+	if v := withSignature(h, rf.Property, &r, rf.Expect.Signature); v != nil {
+		ro.Got, ro.Msg, ro.Reproduced = v.Signature, v.Msg, true
+	} else if v := relevant(h, rf.Property, &r); v != nil {
 		ro.Got, ro.Msg = v.Signature, v.Msg
-		ro.Reproduced = v.Signature == rf.Expect.Signature
 	}
 	out.Replay = ro
 	out.Samples = append(out.Samples, r.Trace)
@@ -395,8 +437,7 @@ func minimise(t *testing.T, h *Harness, prop, tier string, tape []uint32, sig st
 		}
 		runs++
 		r := h.RunOne(t, ReplayTape(c), prop, tier, false)
-		v := relevant(h, prop, &r)
-		return v != nil && v.Signature == sig
+		return withSignature(h, prop, &r, sig) != nil
 	}
 	cur := append([]uint32(nil), tape...)
 	// 1. shortest failing prefix
